@@ -841,6 +841,9 @@ class Glob(Generic[AnyStr]):
                     if this.dir_only:
                         # Glob these directories if they exists
                         for start, is_dir in results:
+                            if not is_dir:
+                                # A file (or dangling link) cannot be descended into
+                                continue
                             rest = pattern[1:]
                             if rest:
                                 this = rest.pop(0)
